@@ -29,7 +29,7 @@ bandwidth, configured clip penalties) against every score `global_banded` report
 namespace RbV.Drv.C16
 open RbV.Codec RbV.NW RbV.Poa
 
-def minScore : Int := -858993459
+def minScore : Int := RbV.Gen.Limits.minScorePoa
 
 structure Step where
   mode : String
